@@ -1,5 +1,6 @@
 #!/bin/sh
 # tools/mutp.sh <property> <patchfile> [-R] [-- extra check args]: apply a patch to a scratch source copy of /repo, run the check against it
+[ "$MREPO_LOCKED" = 1 ] || { export MREPO_LOCKED=1; exec flock /tmp/mrepo.lock "$0" "$@"; }
 P=$1; PATCH=$2; shift 2
 REV=""; if [ "$1" = "-R" ]; then REV="-R"; shift; fi
 rm -rf /tmp/mrepo; rsync -a --exclude target --exclude .git /repo/ /tmp/mrepo/
